@@ -74,37 +74,65 @@ def reduce_paths(threads):
     def protected(obj, m):
         return all(m in h for h in access.get(obj, []))
 
-    def fuse(evs):
+    def block(evs, i):
+        """the block opened by the lock event evs[i]: (end index, fusable)"""
+        ev = evs[i]
+        m = ev["obj"]
+        rel = "unlock" if ev["op"] == "lock" else "runlock"
+        j = i + 1
+        while j < len(evs) and not (evs[j]["op"] == rel and evs[j]["obj"] == m):
+            j += 1
+        if j >= len(evs):
+            return j, False
+        inner = evs[i + 1:j]
+        nonmovers = [x for x in inner
+                     if not (x["op"] in ("load", "store", "cas", "swap") and protected(x["obj"], m))]
+        simple = all(x["op"] not in ("lock", "rlock", "unlock", "runlock", "spawn", "wait", "recv", "mark")
+                     for x in inner)
+        return j, simple and len(nonmovers) <= 1
+
+    # A thread's paths form a tree whose branching must be decided by event
+    # outcomes only. Two paths that share the prefix up to a lock event must
+    # therefore take the same fuse/no-fuse decision for the block it opens:
+    # fusing it on one path and not on the other would give the tree two
+    # different edges that both start with that acquire, i.e. a choice the
+    # thread commits to before the outcome that distinguishes them is known
+    # (a spurious deadlock). Fuse only when every such path's block is fusable.
+    fusable = {}
+
+    def survey(evs, scope):
+        for i, ev in enumerate(evs):
+            if ev.get("spawn"):
+                survey(ev["spawn"], scope + ("spawn", i))
+            if ev["op"] in ("lock", "rlock"):
+                pk = scope + tuple(key(e) for e in evs[:i + 1])
+                _, ok = block(evs, i)
+                fusable[pk] = fusable.get(pk, True) and ok
+    for name, paths in threads.items():
+        for p in paths:
+            survey(p, (name,))
+
+    def fuse(evs, scope):
         out = []
         i = 0
         while i < len(evs):
             ev = dict(evs[i])
             if ev.get("spawn"):
-                ev["spawn"] = fuse(ev["spawn"])
+                ev["spawn"] = fuse(ev["spawn"], scope + ("spawn", i))
             if ev["op"] == "mark" and ev["obj"] in NOEFFECT_MARKS:
                 i += 1
                 continue
             if ev["op"] in ("lock", "rlock"):
-                m = ev["obj"]
-                rel = "unlock" if ev["op"] == "lock" else "runlock"
-                j = i + 1
-                while j < len(evs) and not (evs[j]["op"] == rel and evs[j]["obj"] == m):
-                    j += 1
-                if j < len(evs):
-                    inner = evs[i + 1:j]
-                    nonmovers = [x for x in inner
-                                 if not (x["op"] in ("load", "store", "cas", "swap") and protected(x["obj"], m))]
-                    simple = all(x["op"] not in ("lock", "rlock", "unlock", "runlock", "spawn", "wait", "recv", "mark")
-                                 for x in inner)
-                    if simple and len(nonmovers) <= 1:
-                        out.append({"op": "atomic", "obj": m, "seq": [dict(x) for x in evs[i:j + 1]],
-                                    "where": ev.get("where", "")})
-                        i = j + 1
-                        continue
+                j, ok = block(evs, i)
+                if ok and fusable.get(scope + tuple(key(e) for e in evs[:i + 1]), False):
+                    out.append({"op": "atomic", "obj": ev["obj"], "seq": [dict(x) for x in evs[i:j + 1]],
+                                "where": ev.get("where", "")})
+                    i = j + 1
+                    continue
             out.append(ev)
             i += 1
         return out
-    return {name: [fuse(p) for p in paths] for name, paths in threads.items()}
+    return {name: [fuse(p, (name,)) for p in paths] for name, paths in threads.items()}
 
 
 class Tree:
